@@ -528,6 +528,53 @@ func C01(tier string) int {
 			}
 		}
 	}
+	// F3d: one list whose elements come from SEVERAL vocabularies: every sequence of length 2..4 over one
+	// element per vocabulary (a plain ActivityStreams Note; the first type of each other vocabulary; a
+	// Person carrying a typeless publicKey for vocabularies that have typeless values only) - the
+	// vocabulary an element brings must be named whatever came before it in the list
+	{
+		type elemMk func(i int) M
+		alpha := []elemMk{func(i int) M {
+			return M{"type": "Note", "id": fmt.Sprintf("https://x.example/el%d", i), "name": fmt.Sprintf("el%d", i)}
+		}}
+		seenV := map[string]bool{"ActivityStreams": true}
+		for _, ftk := range foreign {
+			if v := o.Types[ftk].Vocab; !seenV[v] {
+				seenV[v] = true
+				ftk := ftk
+				alpha = append(alpha, func(i int) M { return embedded(o, ftk, fmt.Sprintf("https://x.example/el%d", i)) })
+			}
+		}
+		if pk := o.Props["W3IDSecurityV1/publicKey"]; pk != nil && !seenV["W3IDSecurityV1"] {
+			alpha = append(alpha, func(i int) M {
+				id := fmt.Sprintf("https://x.example/el%d", i)
+				return M{"type": "Person", "id": id, "publicKey": M{"id": id + "#key", "owner": id, "publicKeyPem": "-----BEGIN-----"}}
+			})
+		}
+		var seqs [][]int
+		var gen func(cur []int)
+		gen = func(cur []int) {
+			if len(cur) >= 2 {
+				seqs = append(seqs, append([]int(nil), cur...))
+			}
+			if len(cur) == 4 {
+				return
+			}
+			for k := range alpha {
+				gen(append(cur, k))
+			}
+		}
+		gen(nil)
+		for _, lc := range listCarriers {
+			for _, sq := range seqs {
+				l := L{}
+				for i, k := range sq {
+					l = append(l, alpha[k](i))
+				}
+				add("canonical|list-over-several-vocabularies", withContext(o, M{"type": lc.host, "id": "https://x.example/doc", lc.prop: l}, "ActivityStreams/"+lc.host), true)
+			}
+		}
+	}
 	// F3b: canonical documents whose own @context names MORE than the document uses (every shipped
 	// vocabulary; an unknown extension URL; an inline term map): the re-encoded @context names exactly
 	// the vocabularies used
@@ -646,7 +693,7 @@ func C01(tier string) int {
 	nc("empty-string-members", note("content", "", "summary", ""))
 
 	// ---- run ----
-	res.Rule = fmt.Sprintf("documents derived from the ontology grammar: every (type, property, kind in range closure + IRI) x {scalar, list of 2, mixed list <=4, language map} (canonical), nesting depth 2-3 through object/attachment/tag/inReplyTo for every type, unknown members from a 10-value alphabet under 3 key spellings at top level and nested, every (type, name of a property the type does not have) as a member (top level; every 16th nested), lists of 2-3 same-kind elements of which exactly one (each position) nests a value of another vocabulary, every type under an @context that names more than it uses (all shipped vocabularies / an unknown extension URL / an inline term map), and %d accepted-but-non-canonical shapes; %d documents in total; oracle: (a) canonical: encode(decode(d)) JSON-equal to d with @context compared as a set that must equal the vocabularies the oracle says the document uses; (b) no member lost except nested @context / null for a known property, natural-language members modulo the Map spelling; (c) a second round trip changes nothing unless the document holds such a null or an array directly inside an array; non-trivial = documents the decoder accepted, distinct by (family, type, member names)", 22+6*10+len(o.Vocabs), len(cases))
+	res.Rule = fmt.Sprintf("documents derived from the ontology grammar: every (type, property, kind in range closure + IRI) x {scalar, list of 2, mixed list <=4, language map} (canonical), nesting depth 2-3 through object/attachment/tag/inReplyTo for every type, unknown members from a 10-value alphabet under 3 key spellings at top level and nested, every (type, name of a property the type does not have) as a member (top level; every 16th nested), lists of 2-3 same-kind elements of which exactly one (each position) nests a value of another vocabulary, every list of 2-4 elements over one element per vocabulary (x 5 carrying properties), every type under an @context that names more than it uses (all shipped vocabularies / an unknown extension URL / an inline term map), and %d accepted-but-non-canonical shapes; %d documents in total; oracle: (a) canonical: encode(decode(d)) JSON-equal to d with @context compared as a set that must equal the vocabularies the oracle says the document uses; (b) no member lost except nested @context / null for a known property, natural-language members modulo the Map spelling; (c) a second round trip changes nothing unless the document holds such a null or an array directly inside an array; non-trivial = documents the decoder accepted, distinct by (family, type, member names)", 22+6*10+len(o.Vocabs), len(cases))
 	var mu sync.Mutex
 	chunk := 4000
 	par((len(cases)+chunk-1)/chunk, func(ci int) {
